@@ -58,6 +58,8 @@ package envs
 //@   loop 1 invariant verr == nil && heldW(envs.mu) && envs.data != nil
 //@   ensures err != nil ==> verr != nil && mapAt(envs.data, ref(envs.data), 0) == old(mapAt(envs.data, ref(envs.data), 0)) && mapAt(envs.data, ref(envs.data), 1) == old(mapAt(envs.data, ref(envs.data), 1))
 //@   ensures err == nil ==> verr == nil
+// the store never adopts the caller's map: later edits of that map stay outside (and unvalidated names with them)
+//@   ensures ref(envs.data) == old(ref(envs.data))
 // All returns a copy that shares nothing with the stored map
 //@ func (*Environments).All [C18]
 //@   requires envs.data != nil
